@@ -401,6 +401,7 @@ void Sim::wipe() {
   int fd = ::open(kmsgPath().c_str(), O_WRONLY | O_CREAT | O_TRUNC, 0644);
   if (fd >= 0) ::close(fd);
   ever_.clear();
+  everX_.clear();
   w_ = World();
 }
 
@@ -494,7 +495,10 @@ void Sim::mk(const Cg& c) {
     }
   }
   struct stat stt;
-  if (::stat(dir.c_str(), &stt) == 0) ever_[stt.st_ino] = c.path;
+  if (::stat(dir.c_str(), &stt) == 0) {
+    ever_[stt.st_ino] = c.path;
+    everX_[stt.st_ino] = c.xattrs;
+  }
   for (auto& kv : c.xattrs) {
     if (::setxattr(dir.c_str(), kv.first.c_str(), kv.second.data(), kv.second.size(), 0) != 0) {
       throw std::runtime_error("vp: setxattr " + kv.first + " on " + dir + ": " + strerror(errno));
@@ -593,12 +597,21 @@ void Sim::apply(const Op& op) {
     if (!c) return;
     // xattrs: remove old ones not present any more
     std::string dir = cgroot_ + "/" + op.cg.path;
+    // xattrs: only what the spec changes (oomd may have updated others itself)
     for (auto& kv : c->xattrs)
       if (!op.cg.xattrs.count(kv.first)) ::removexattr(dir.c_str(), kv.first.c_str());
-    for (int p : c->pids)
-      if (std::find(op.cg.pids.begin(), op.cg.pids.end(), p) == op.cg.pids.end()) w_.procs.erase(p);
+    for (auto& kv : op.cg.xattrs) {
+      auto old = c->xattrs.find(kv.first);
+      if (old == c->xattrs.end() || old->second != kv.second)
+        ::setxattr(dir.c_str(), kv.first.c_str(), kv.second.data(), kv.second.size(), 0);
+    }
+    // "set" keeps the live pids and adds the listed ones
+    std::vector<int> live = c->pids;
+    std::vector<int> add = op.cg.pids;
     *c = op.cg;
-    for (auto& kv : c->xattrs) ::setxattr(dir.c_str(), kv.first.c_str(), kv.second.data(), kv.second.size(), 0);
+    c->pids = live;
+    for (int p : add)
+      if (std::find(c->pids.begin(), c->pids.end(), p) == c->pids.end()) c->pids.push_back(p);
     renderCg(*c);
   } else if (op.op == "host") {
     w_.host = op.host;
